@@ -217,10 +217,10 @@ Qed.
 
 Lemma eqd_relabel_tax : forall S D g t, eqd S D t -> eqd S D (relabel (fun i l x => (l, g i x)) t).
 Proof.
-  intros S D g t. revert D. induction t as [i l x ks IH] using btree_ind2. intros D H. inv_eqd H; simpl.
+  intros S D g t. set (f := fun (i0 : nat) (l0 : Q) (x0 : option nat) => (l0, g i0 x0)).
+  revert D. induction t as [i l x ks IH] using btree_ind2. intros D H. inv_eqd H; simpl.
   - constructor. auto.
-  - apply eqd_node. change (relabel (fun i l x => (l, g i x)) k :: map (relabel (fun i l x => (l, g i x))) r)
-      with (map (relabel (fun i l x => (l, g i x))) (k :: r)).
+  - apply eqd_node. change (relabel f k :: map (relabel f) r) with (map (relabel f) (k :: r)).
     rewrite Forall_map. rewrite Forall_forall in *. auto.
 Qed.
 
